@@ -219,6 +219,7 @@ static void ob_multi_channel(H<T>& h)
     using sym::isfinite;
     using std::isfinite;
     std::size_t const N = h.get("N", 1), d = h.get("d", 1), C = h.get("C", 2);
+    std::size_t const md = h.get("md", static_cast<long>(d));     // size of the coordinate vector the map fills (may differ from d)
     sym::run_log<T> log;
     sym::stub_tables<T> tab;
     std::vector<sym::map_record<T>> cc, dc;
@@ -251,9 +252,9 @@ static void ob_multi_channel(H<T>& h)
     for (std::size_t i = 0; i != C; ++i) if (!wz[i]) enabled.push_back(i);
 
     hep::multi_channel_result<T> result = (f.dist_kinds > 0)
-        ? hep::multi_channel_iteration(hep::make_multi_channel_integrand<T>(f, d, m, d, C,
+        ? hep::multi_channel_iteration(hep::make_multi_channel_integrand<T>(f, d, m, md, C,
               hep::make_dist_params<T>(2, T(0.0), T(1.0), "x")), N, w, eng)
-        : hep::multi_channel_iteration(hep::make_multi_channel_integrand<T>(f, d, m, d, C), N, w, eng);
+        : hep::multi_channel_iteration(hep::make_multi_channel_integrand<T>(f, d, m, md, C), N, w, eng);
 
     auto const& draws = sym::canon_table<T>::draws();
     h.check("C10|multi_channel.d_plus_one_canonical_numbers_per_call", h.truth(draws.size() == N * (d + 1)));
@@ -313,6 +314,7 @@ static void ob_multi_channel(H<T>& h)
         auto seen = h.truth(c.coords.size() == d);
         for (std::size_t j = 0; j != d && j < c.coords.size(); ++j) seen = seen && h.same(c.coords[j], mc.rn[j]);
         h.check("C17|multi_channel.integrand_point_is_the_random_numbers", seen);
+        h.check("C17|multi_channel.coordinate_buffer_has_the_size_the_integrand_declared", h.truth(mc.coords_after.size() == md));
 
         T wgt = T(0.0);
         if (had_dens)
